@@ -65,12 +65,12 @@ CHECKS.update({
  "C09": dict(cat="exploration", tech="exhaustive enumeration of pattern shapes, flag subsets x output forms, hostile spellings, all single-token and single-byte mutants of seeds through the real generator under a watchdog; file-set rule; go build of distinct outputs",
    text="Every run of the enumerated input/flag space must terminate within the watchdog horizon; every exit-0 run must have written exactly the packages the configuration calls for, non-empty; a deterministic selection of distinct outputs with valid header/actions is compiled by the Go toolchain.",
    note="Non-termination is only observable as exceeding 600x the normal running time; inputs are the enumerated mutants, not all byte strings; compile step covers a budgeted selection (reported).", ref="6 C09"),
- "C14": dict(cat="exploration", tech="exhaustive single-edit token mutants, reference renamings and definition duplications of seed grammars; ill-formedness decided by Earley over spec/gocc2.ebnf + symbol-table rules; real generator must exit non-zero",
+ "C14": dict(cat="exploration", tech="exhaustive single-edit token mutants (token kinds, stray characters incl. white-space look-alikes, malformed literals and identifiers), reference renamings and definition duplications of seed grammars; ill-formedness decided by Earley over spec/gocc2.ebnf + symbol-table rules; real generator must exit non-zero",
    text="The harness knows the token sequence of every mutant it prints, so an independent Earley recogniser over the documented grammar plus three symbol-table rules decide ill-formedness without gocc's front end; every ill-formed mutant must be refused.",
    note="One-directional (ill-formed => non-zero exit).", ref="6 C14"),
 })
 CHECKS.update({
- "C10": dict(cat="exploration", tech="enumerated hostile terminal spellings x generation modes: read-back token map bijection rules; compiled token packages: exhaustive lookups over all numbers, all terminal names and an unknown-name menu; lexeme scan of every string-literal terminal",
+ "C10": dict(cat="exploration", tech="enumerated hostile terminal spellings x generation modes: read-back token map bijection rules; compiled token packages: exhaustive lookups over all numbers, all terminal names and an unknown-name menu, and every sequence of three lookups over known and unknown names (history-freedom); lexeme scan of every string-literal terminal",
    text="For every grammar of a corpus built around hostile terminal spellings, in default, -no_lexer and -zip mode, the emitted token map is checked to be a bijection over exactly the grammar's terminals (derived independently from the harness's own tokenization) with INVALID 0 and end-of-input 1; the compiled token package is queried exhaustively; lexer and parser tables are bound to the same numbering through the name-addressed products of C01/C02/C05.",
    note="The pseudo symbols empty/error may occupy numbers; two known findings (terminals literally named INVALID / U+241A).", ref="6 C10"),
  "C12": dict(cat="exploration", tech="all valid flag subsets through the generator (file-by-file byte dependence on a single flag) + compiled flag variants: table equality after init() and identical observations on exhaustive inputs",
